@@ -3,12 +3,15 @@ package main
 import (
 	"bytes"
 	"fmt"
+	"math/rand"
 	"runtime"
 	"sync"
+	"sync/atomic"
 
 	"reduction.dev/reduction/dkv/kv"
 	"reduction.dev/reduction/dkv/sst"
 	"reduction.dev/reduction/dkv/storage"
+	"reduction.dev/reduction/dkv/wal"
 	"verif/lib"
 )
 
@@ -17,6 +20,7 @@ import (
 //   - first lookups: a table re-opened from its descriptor loads its footer (bloom filter, search index) lazily at
 //     the first read; reads come from the event loop, the flush task and the compaction task at once. Several
 //     goroutines do their FIRST Get on a freshly re-opened table together; every one must get the stored entry.
+//   - the WAL: Put/Delete/Cut on the writing goroutine while the flush task truncates (see below).
 //   - one writer, several tasks: flush and compaction write through the database's single TableWriter at the same
 //     time. Concurrent Write calls must produce distinct files, and every table re-opened from its descriptor must
 //     hold exactly the run that was written to it.
@@ -138,6 +142,89 @@ func concurrentCase(c *lib.Ctx) {
 				runtime.KeepAlive(re)
 			})
 		}
+	}
+	// ---- WAL under its documented caller contract: Put/Delete/Cut on the writing goroutine, Truncate from the
+	// asynchronous flush task. Truncate(s) is always called with an earlier cut point; whatever the interleaving,
+	// the saved log must replay exactly the operations appended after the start marker.
+	for round := 0; round < 6 && !c.Violated(); round++ {
+		w := wal.NewWriter(fs, 5000+round, 1<<30)
+		nops := 2000 + r.Intn(3000)
+		cutEvery := 1 + r.Intn(3)
+		var cutUpTo atomic.Uint64 // latest sequence number whose segment has been cut
+		var writerDone atomic.Bool
+		tr := rand.New(rand.NewSource(r.Int63()))
+		lag := tr.Intn(3) // the flush task truncates up to the newest cut / the middle / stays far behind
+		var truncMax uint64
+		done := make(chan struct{})
+		go func() {
+			defer close(done)
+			guard("wal.Writer.Truncate", func() {
+				for !writerDone.Load() {
+					cut := cutUpTo.Load()
+					s := cut
+					switch lag {
+					case 1:
+						s = truncMax + (cut-truncMax)/2
+					case 2:
+						s = cut / 2
+					}
+					if s < truncMax {
+						s = truncMax
+					}
+					w.Truncate(s)
+					truncMax = s
+					if tr.Intn(8) == 0 {
+						runtime.Gosched()
+					}
+				}
+			})
+		}()
+		ops := make([]wop, 0, nops)
+		for seq := uint64(1); seq <= uint64(nops); seq++ {
+			k := []byte(fmt.Sprintf("k%d", seq%17))
+			if seq%5 == 0 {
+				w.Delete(k, seq)
+				ops = append(ops, wop{seq: seq, k: k, del: true})
+			} else {
+				v := []byte(fmt.Sprintf("v%d.%d", round, seq))
+				w.Put(k, v, seq)
+				ops = append(ops, wop{seq: seq, k: k, v: v})
+			}
+			if seq%uint64(cutEvery) == 0 {
+				w.Cut()
+				cutUpTo.Store(seq)
+			}
+		}
+		writerDone.Store(true)
+		<-done
+		final := w
+		w.Rotate(fs)
+		if err := final.Save(); err != nil {
+			report("wal-save", "Save: %v", err)
+			break
+		}
+		last := uint64(nops)
+		for _, a := range []uint64{truncMax, min(truncMax+1, last), (truncMax + last) / 2, last} {
+			var got []wop
+			guard("wal replay", func() {
+				for e, err := range wal.NewReader(fs, final.Handle(a)).All() {
+					if err != nil {
+						report("wal-replay", "reading with After=%d: %v", a, err)
+						return
+					}
+					got = append(got, wop{k: e.K, v: e.V, del: e.Deleted})
+				}
+			})
+			want := ops[a:]
+			if !sameWops(got, want) {
+				first := 0
+				for first < len(got) && first < len(want) && sameWops(got[first:first+1], want[first:first+1]) {
+					first++
+				}
+				report("wal-replay", "Truncate concurrent with Put/Cut (%d ops, cut every %d, truncated up to %d): replay with After=%d returns %d operations, %d were appended after it; first difference at position %d (seq %d)", nops, cutEvery, truncMax, a, len(got), len(want), first, a+uint64(first)+1)
+			}
+		}
+		c.Feat("wal_ops_with_concurrent_truncate", int64(nops))
 	}
 	c.Feat("concurrent_table_writes", int64(g*per))
 	c.Feat("distinct_table_files", int64(len(seen)))
